@@ -325,6 +325,31 @@ def run(ctx, out):
         o = run_update(root, has_remote, R, L, T, v, rnd, deleted=deleted)
         git_items.append({"id": "g%d" % gi, "kind": "up", "hasRemote": has_remote, "R": R, "L": L, "T": T, "v": v, "out": o, "revOk": LAST["revOk"], "deleted": deleted, "other_names": {"p": OTHER["p"], "q": OTHER["q"]}})
         out.add_case(("up", has_remote, sorted(map(branch_str, R)), sorted(map(branch_str, L)), sorted(map(branch_str, T)), v))
+    # ---- tag fallback with tags whose TEXT is a prefix of the version without being one of its variants (v7.1 and 7.10.2, v1 and
+    # 17.x, v7.10.1 and 7.10.12): no branch qualifies (master + a later major only), so the v-tags decide
+    for gi in range(12 if ctx.quick else 120):
+        maj = rnd.choice([7, 17, 12])
+        mnr = rnd.choice([10, 11, 17, 1])
+        pat = rnd.choice([2, 10, 12])
+        v = {"k": "full", "maj": maj, "min": mnr, "pat": pat, "suf": rnd.choice(["", "", "s1"])}
+
+        def tv(a, b=-1, c=-1):
+            return {"k": "v", "maj": a, "min": b, "pat": c, "suf": ""}
+
+        near = [tv(maj, mnr // 10)] if mnr >= 10 else [tv(maj, mnr * 10 + 1)]
+        if maj >= 10:
+            near += [tv(maj // 10), tv(maj // 10, mnr)]
+        if pat >= 10:
+            near += [tv(maj, mnr, pat // 10)]
+        genuine = [tv(maj), tv(maj, mnr), tv(maj, mnr, pat)]
+        T = [x for x in near if rnd.random() < 0.8] + [x for x in genuine if rnd.random() < 0.35]
+        T = [x for i, x in enumerate(T) if x not in T[:i]]
+        L = [dict(MASTER), tv(maj + 1)] + ([tv(maj + 1, 0)] if rnd.random() < 0.5 else [])
+        has_remote = rnd.random() < 0.5
+        R = [dict(x) for x in L] if has_remote else []
+        o = run_update(root, has_remote, R, L, T, v, rnd)
+        git_items.append({"id": "t%d" % gi, "kind": "up", "hasRemote": has_remote, "R": R, "L": L, "T": T, "v": v, "out": o, "revOk": LAST["revOk"], "deleted": [], "other_names": {"p": OTHER["p"], "q": OTHER["q"]}})
+        out.add_case(("up-tags", has_remote, sorted(map(branch_str, L)), sorted(map(branch_str, T)), v))
     # ---- a working copy with uncommitted changes, left on master by an earlier run: Rally either ends on the documented best
     # match or reports an error - it never goes on with another branch
     for gi in range(16 if ctx.quick else 160):
